@@ -452,9 +452,10 @@ Definition step (s : sys) (o : op) : sys :=
   | OComplete ids ok =>
       let q := filter (fun i => negb (existsb (Z.eqb i) ids)) (s_queue s) in
       if ok then
-        (* candidates' NodeClaims were deleted; they stay marked *)
-        mkSys (s_now s) (s_pools s)
-              (map (fun x => if existsb (Z.eqb (n_id x)) ids then set_deleting x else x) (s_nodes s)) q
+        (* the candidates' NodeClaims were deleted through the API; CompleteCommand keeps the in-memory
+           mark (the `!cmd.Succeeded` guard), and cluster state learns of the deletionTimestamp only
+           when the informer delivers it: that is a later, separate [EDelete] event *)
+        mkSys (s_now s) (s_pools s) (s_nodes s) q
       else
         (* CompleteCommand on failure: UnmarkForDeletion *)
         mkSys (s_now s) (s_pools s)
